@@ -85,8 +85,12 @@ func NewSink() (*Sink, error) {
 
 func (s *Sink) Close() {
 	s.mu.Lock()
+	was := s.closed
 	s.closed = true
 	s.mu.Unlock()
+	if was {
+		return
+	}
 	s.smtp.Close()
 	s.HTTP.CloseClientConnections()
 	s.HTTP.Close()
